@@ -5,6 +5,11 @@ import json, os
 D = os.path.dirname(os.path.abspath(__file__))
 
 CHECKS = {
+ 'C04': dict(
+   category='model_checking', design_ref='DESIGN.md 5 C04',
+   technique='bounded symbolic execution (CrossHair/z3): parser on every text up to the bound without the balancedness precondition; theory detection / collect_information / counting / rendering on command trees whose identifier leaves are symbolic strings (the solver finds the magic names); exit-status and usage-error mapping with symbolic outcomes; exception isolation by bounded enumeration',
+   text='No exception escapes parse_smtlib for any text up to the bound; none escapes auto_detect_theories (all is_relevant), collect_information, count_* or the renderer on any command tree shape up to the bound with an arbitrary identifier at the command position or at any one other leaf; __main__.main returns 0 iff ddsmt_main completed and the executable exits with exactly that value (rc symbolic in 0..255); every usage error of check_options is one one-line DDSMTException. A mutator raising any of 7 exception classes at any call site costs only its own candidates in both strategies (224 combinations each, enumerated).',
+   note='Trusted: CrossHair/z3 string model; hash shim T; Node.__format__ shim; fake os.path in the usage harness; the isolation sub-check is concrete enumeration (auxiliary). Outside: more than one non-command symbolic identifier at a time, deeper trees, failures inside real worker processes.'),
  'C07': dict(
    category='model_checking', design_ref='DESIGN.md 5 C07',
    technique='bounded symbolic execution (CrossHair/z3): symbolic text -> real parser -> each real renderer -> read back by the reference reader and the real parser; tree-level variant with lexemes of symbolic kind/content; line wrapping with symbolic width and with a long concrete context',
